@@ -297,7 +297,8 @@ def parts(tier):
 
     def gen_shift():
         for s in sets:
-            e = D.labelled(s)
+          # (second: intervals labelled with the empty string next to labelled ones - entries like any other)
+          for e in (D.labelled(s),) + ((D.labelled(s, ("", "b", "")),) if 1 <= len(s) <= 2 else ()):
             for (lo, hi) in ((0.0, 4.0), (1.0, 4.0), (0.0, 6.0)):
                 if e and e[0][0] < lo:
                     continue
